@@ -251,6 +251,7 @@ protected:
     std::vector<PropInfo*> subjections{};
     PropInfo* _imitation{nullptr};
 
+    void dropClauses();
     void typeProperty(UTAP::expression_t) override;
     void strategy_declaration(const char*) override;
     void subjection(const char*) override;
@@ -259,6 +260,9 @@ protected:
 
 public:
     TigaPropertyBuilder(const UTAP::Document& doc): PropertyBuilder{doc} {}
+
+    void property() override;
+    void handle_error(const UTAP::TypeException&) override;
 
     /* Should be implemented by verifier/property.h at some point.
        virtual void paramProperty(size_t, UTAP::Constants::kind_t);
